@@ -90,9 +90,9 @@ fn cmd_check(args: &[String]) -> i32 {
         batch_budget: Duration::from_secs(if tier == Tier::Thorough { 1500 } else { 150 }),
         level: ps.level.to_string(),
         also_owns: vec![],
-        min_budget_runs: if tier == Tier::Thorough { 12000 } else { 6000 },
-        min_budget_wall: Duration::from_secs(if tier == Tier::Thorough { 120 } else { 40 }),
-        max_minimise: if tier == Tier::Thorough { 16 } else { 8 },
+        min_budget_runs: if tier == Tier::Thorough { 12000 } else { 4000 },
+        min_budget_wall: Duration::from_secs(if tier == Tier::Thorough { 60 } else { 15 }),
+        max_minimise: if tier == Tier::Thorough { 12 } else { 6 },
     };
     driver::run_check(&Btsim, &spec)
 }
